@@ -143,6 +143,8 @@ class SmtpSession(object):
         self._call_validator('tls')
         self._call_validator('tls2', ssl_socket)
         self.security = 'TLS'
+        # An identity established in clear text does not carry over.
+        self.auth = None
 
     def AUTH(self, reply, creds):
         self._call_validator('auth', reply, creds)
